@@ -306,9 +306,29 @@ def run(ctx):
     # constants folded inside statements
     fold = {}
     for i in range(600 if quick else 15000):
-        t = gen_tree(rng, rng.choice([1, 2, 3]), ternary=False)
+        # (a third of them with ?: — not nested in a middle operand, which the statement grammar rejects)
+        t = gen_tree(rng, rng.choice([1, 2, 3]), ternary=(i % 3 == 2))
+        if has_nested_middle_ternary(t):
+            t = gen_tree(rng, 2, ternary=False)
         text, toks = c_print(rng, t)
         fold['f%d' % i] = (t, text)
+    # fixed: every kind of constant operand under every truth-valued operator, the 0/1 then moved or carried into the
+    # high byte by constant arithmetic (the low and the high byte of a folded statement are computed in two passes)
+    Nn = lambda v: ('num', v)
+    opnds = [Nn(2), Nn(0), ('tern', Nn(1), Nn(2), Nn(3)), ('tern', Nn(0), Nn(2), Nn(0)), ('un', '-', Nn(1)), ('un', '~', Nn(0)), ('bin', '+', Nn(1), Nn(1)),
+             ('bin', '<<', Nn(1), Nn(1)), ('un', '!', Nn(0))]
+    truths = [lambda x: ('bin', '==', x, Nn(2)), lambda x: ('bin', '!=', x, Nn(2)), lambda x: ('bin', '<', x, Nn(3)), lambda x: ('un', '!', x),
+              lambda x: ('bin', '&&', x, Nn(1)), lambda x: ('bin', '||', x, Nn(0)), lambda x: ('bin', '>=', Nn(2), x)]
+    carries = [lambda t_: ('bin', '*', t_, Nn(256)), lambda t_: ('bin', '<<', t_, Nn(8)), lambda t_: ('bin', '+', t_, Nn(255)), lambda t_: ('bin', '-', Nn(0), t_),
+               lambda t_: ('bin', '*', Nn(1000), t_), lambda t_: ('bin', '-', Nn(256), t_), lambda t_: ('bin', '|', ('bin', '<<', t_, Nn(9)), t_)]
+    fk = 0
+    for o_ in opnds:
+        for tr_ in truths:
+            for ca_ in carries:
+                t = ca_(tr_(o_))
+                text, toks = c_print(rng, t)
+                fold['w%d' % fk] = (t, text)
+                fk += 1
     # the same expressions with some literals spelled as NAMED constants (const short K = literal): folded the same way
     decls = {fid: '' for fid in fold}
     for fid, (t, text) in list(fold.items()):
